@@ -31,12 +31,12 @@ Qed.
 
 (* streams with id <= N are not failed by GOAWAY(N); whatever it fails ends Unavailable and
    unprocessed *)
-Theorem goaway_le_N_untouched c id code e :
+Theorem goaway_le_N_untouched c id code e : accepted_goaway c id = true ->
   In e (snd (CF.exec_op c (CF.OGoAway id code))) -> CF.tag e = 1 ->
   id < CF.esid e /\ CF.ecode e = 14 /\ snd e = 1.
 Proof.
-  cbn [CF.exec_op]. destruct ((0 <? id) && Z.even id); [intros []|].
-  destruct (CF.k_goaway c && (CF.k_prev c <? id)); [intros []|].
+  unfold accepted_goaway, goaway_even. intros V. apply andb_true_iff in V as [V1 V2]. apply negb_true_iff in V1, V2.
+  cbn [CF.exec_op]. rewrite V1, V2.
   destruct (negb (CF.any_active c)) eqn:A.
   - apply negb_true_iff in A. unfold CF.close_conn. cbn [snd CF.k_streams].
     unfold CF.any_active in A. rewrite (close_events_none _ _ _ _ A). cbn [app].
@@ -132,13 +132,15 @@ Lemma goaway_exec c id code : CF.k_mode c <> 2 ->
   (if accepted_goaway c id
    then CF.k_goaway (fst r) = true /\ CF.k_prev (fst r) = id /\
         (CF.k_mode (fst r) = 2 \/ CF.k_mode (fst r) = (if CF.k_goaway c then CF.k_mode c else 1))
-   else r = (c, [])).
+   else r = CF.close_conn c).
 Proof.
   intros M. unfold accepted_goaway, goaway_even. cbn [CF.exec_op].
+  assert (CC : has_eof (snd (CF.close_conn c)) = (CF.k_mode (fst (CF.close_conn c)) =? 2)).
+  { unfold CF.close_conn. cbn [fst snd CF.k_mode]. rewrite has_eof_app, eof_close_events. reflexivity. }
   destruct ((0 <? id) && Z.even id); cbn [negb andb].
-  - cbn [fst snd]. split; [|reflexivity]. destruct (Z.eqb_spec (CF.k_mode c) 2); [contradiction|reflexivity].
+  - split; [exact CC|reflexivity].
   - destruct (CF.k_goaway c && (CF.k_prev c <? id)); cbn [negb].
-    + cbn [fst snd]. split; [|reflexivity]. destruct (Z.eqb_spec (CF.k_mode c) 2); [contradiction|reflexivity].
+    + split; [exact CC|reflexivity].
     + destruct (negb (CF.any_active c)).
       * unfold CF.close_conn. cbn [fst snd CF.k_mode CF.k_goaway CF.k_prev CF.k_streams].
         rewrite has_eof_app, eof_close_events. cbn. auto.
@@ -185,7 +187,7 @@ Proof.
       - destruct X as (A & _ & [M|M]); rewrite M.
         + split; intros; discriminate.
         + destruct (CF.k_goaway c) eqn:Gc; [split; [intros _; apply G; exact Gc|auto]|split; intros; discriminate].
-      - rewrite X. cbn [fst]. split; auto. }
+      - rewrite X. unfold CF.close_conn. cbn [fst CF.k_mode]. split; intros; discriminate. }
     destruct Y as [Y1 Y2]. unfold ginv. rewrite S1.
     destruct S3 as [S3|[S3 S4]]; [rewrite S3; auto|rewrite S4]. split; intros; discriminate.
 Qed.
@@ -225,24 +227,47 @@ Proof.
   split; [exact A|]. apply goaway_reach; auto.
 Qed.
 
-(* the reader stores handleGoAway's connection error in errClose and keeps reading: a GOAWAY
-   with a non-zero even id, or with an id above the previous GOAWAY's, changes nothing *)
-Theorem bogus_goaway_ignored c id code :
-  accepted_goaway c id = false -> CF.exec_op c (CF.OGoAway id code) = (c, []).
+(* a GOAWAY with a non-zero even id, or with an id above the previous GOAWAY's, is a connection
+   error: the transport is closed, every active stream ends Unavailable (not marked
+   unprocessed), nothing else happens *)
+Theorem bogus_goaway_is_conn_error c id code :
+  accepted_goaway c id = false -> CF.exec_op c (CF.OGoAway id code) = CF.close_conn c.
 Proof.
   unfold accepted_goaway, goaway_even. cbn [CF.exec_op].
   destruct ((0 <? id) && Z.even id); [reflexivity|]. cbn [negb andb].
   destruct (CF.k_goaway c && (CF.k_prev c <? id)); [reflexivity|discriminate].
 Qed.
 
-(* ... so "a later GOAWAY with a larger id is a connection error" fails: after GOAWAY(1),
-   GOAWAY(3) leaves the connection open and stream 1 alive *)
-Definition larger_goaway_script : list CF.op := [CF.ONew 0; CF.ONew 0; CF.OGoAway 1 0; CF.OGoAway 3 0].
-Lemma second_larger_goaway_refuted :
-  let c := creach CF.conn0 [CF.ONew 0; CF.ONew 0; CF.OGoAway 1 0] in
-  CF.k_goaway c = true /\ CF.k_prev c = 1 /\
-  CF.step c (CF.OGoAway 3 0) = (c, []) /\ CF.k_mode c = 1 /\ CF.any_active c = true.
-Proof. vm_compute. repeat split. Qed.
+Theorem second_larger_is_error c id code : CF.k_goaway c = true -> CF.k_prev c < id ->
+  CF.exec_op c (CF.OGoAway id code) = CF.close_conn c /\
+  CF.k_mode (fst (CF.close_conn c)) = 2 /\ CF.any_active (fst (CF.close_conn c)) = false /\
+  In (8, 0, 0, 0) (snd (CF.close_conn c)) /\
+  forall s, In s (CF.k_streams c) -> CF.active s = true ->
+            In (1, CF.x_id s, 14, b2z (CF.x_unproc s)) (snd (CF.close_conn c)).
+Proof.
+  intros G L. split.
+  - apply bogus_goaway_is_conn_error. unfold accepted_goaway. rewrite G.
+    destruct (Z.ltb_spec (CF.k_prev c) id); [|lia]. apply andb_false_r.
+  - unfold CF.close_conn. cbn [fst snd CF.k_mode CF.k_streams CF.any_active]. split; [reflexivity|].
+    split; [apply CP.close_where_all_done|]. split; [apply in_or_app; right; left; reflexivity|].
+    intros s Hin Ha. apply in_or_app. left.
+    pose proof (close_events_complete (fun _ => true) CF.C_UNAVAILABLE false (CF.k_streams c) s Hin Ha eq_refl) as H.
+    rewrite orb_false_r in H. exact H.
+Qed.
+
+Theorem even_goaway_is_error c id code : 0 < id -> Z.even id = true ->
+  CF.exec_op c (CF.OGoAway id code) = CF.close_conn c.
+Proof.
+  intros P E. apply bogus_goaway_is_conn_error. unfold accepted_goaway, goaway_even.
+  destruct (Z.ltb_spec 0 id); [|lia]. rewrite E. reflexivity.
+Qed.
+
+(* the script GOAWAY(1), GOAWAY(3) with two streams: the second GOAWAY closes the connection
+   and stream 1 ends Unavailable *)
+Lemma second_larger_witness :
+  CF.run [] [[1; 0]; [1; 0]; [7; 1; 0]; [7; 3; 0]] =
+  Some [[0; 1; 0; 0]; [0; 3; 0; 0]; [1; 3; 14; 1]; [1; 1; 14; 0; 8; 0; 0; 0]; []].
+Proof. vm_compute. reflexivity. Qed.
 
 (* ---- client bridge ---- *)
 Definition okc (c : Z * Z * bool) : bool := finding_clause (fst (fst c)) || snd c.
@@ -255,13 +280,21 @@ Proof.
     apply forallb_forall. intros e He. destruct (Z.eqb_spec (CF.tag e) 0) as [T|T]; [|reflexivity].
     rewrite (no_new_stream_after_goaway c dl G H e He T). reflexivity.
   - cbn [cclause]. destruct (Z.eqb_spec (CF.k_mode c) 2) as [E|E]; [reflexivity|].
-    destruct (goaway_even id); [reflexivity|]. destruct (goaway_larger c id); [reflexivity|].
+    assert (EOF : accepted_goaway c id = false ->
+                  has_eof (snd (CF.step c (CF.OGoAway id code))) = true).
+    { intros V. unfold CF.step. destruct (Z.eqb_spec (CF.k_mode c) 2); [contradiction|].
+      rewrite (bogus_goaway_is_conn_error c id code V). unfold CF.settle, CF.close_conn.
+      cbn [CF.k_mode Z.eqb Pos.eqb andb snd]. rewrite has_eof_app. cbn. apply orb_true_r. }
+    unfold accepted_goaway in EOF. fold (goaway_larger c id) in EOF.
+    destruct (goaway_even id) eqn:Ev; [cbn [forallb okc fst snd finding_clause Z.eqb Pos.eqb orb]; rewrite (EOF eq_refl); reflexivity|].
+    destruct (goaway_larger c id) eqn:Lg; [cbn [forallb okc fst snd finding_clause Z.eqb Pos.eqb orb]; rewrite (EOF eq_refl); reflexivity|].
     cbn [forallb]. rewrite andb_true_r. unfold okc. cbn [fst snd finding_clause Z.eqb Pos.eqb orb].
     apply forallb_forall. intros e He. destruct (Z.eqb_spec (CF.tag e) 1) as [T|T]; [|reflexivity]. cbn [negb orb].
     unfold CF.step in He. destruct (Z.eqb_spec (CF.k_mode c) 2); [contradiction|].
     destruct (settle_ledger (CF.exec_op c (CF.OGoAway id code))) as (_ & _ & _ & S).
     destruct (S e He) as [H|H]; [|subst e; discriminate].
-    destruct (goaway_le_N_untouched c id code e H T) as (A & B & C).
+    assert (V : accepted_goaway c id = true) by (unfold accepted_goaway; fold (goaway_larger c id); rewrite Ev, Lg; reflexivity).
+    destruct (goaway_le_N_untouched c id code e V H T) as (A & B & C).
     rewrite B, C. destruct (Z.ltb_spec id (CF.esid e)); [reflexivity|lia].
 Qed.
 
